@@ -7,7 +7,8 @@
   table of internal/concat.go, whether `concatMaps` guards nil interface values, whether that
   guard tests `Kind() == Interface` before `IsNil()`, whether the recursion into nested maps
   is decided by the kind of the values' type, whether `ConcatItems` handles a nil interface
-  result, and the presence of the conflict checks in `ConcatMessages` / `concatToolCalls`.
+  result, the presence of the conflict checks in `ConcatMessages` / `concatToolCalls`, and
+  whether the final sort of `concatToolCalls` is a stable one.
   Every theorem is about the model instantiated with `srcCfg`; `EqvE a b` = "equal results,
   or both errors".  Maps carry their element type (`map[string]any`, `map[string]string`,
   `map[string]map[string]string`, … at every nesting level, as chunk type, under a key of a
@@ -17,6 +18,7 @@
 -/
 import EinoV.Model.C14
 import EinoV.Proofs.C14
+import EinoV.Proofs.C14Sort
 import EinoV.Gen.FactsC14
 import EinoV.Expected.C14
 
@@ -27,7 +29,7 @@ open EinoV.Gen
 def srcCfg : Cfg :=
   Expected.C14.mkCfg FactsC14.concatFuncs FactsC14.nilGuard FactsC14.guardKindFirst FactsC14.recurseByKind
     FactsC14.nilResultGuard FactsC14.roleCheck FactsC14.nameCheck
-    FactsC14.tcidCheck FactsC14.tcIdCheck FactsC14.tcTypeCheck FactsC14.tcNameCheck
+    FactsC14.tcidCheck FactsC14.tcIdCheck FactsC14.tcTypeCheck FactsC14.tcNameCheck FactsC14.tcSortStable
 
 /-! ## source-fact tie -/
 
@@ -36,8 +38,9 @@ def srcCfg : Cfg :=
     functions registered by schema's `init`, the nil guard of `concatMaps`, its form
     (`val.Kind() == reflect.Interface && val.IsNil()`: `IsNil` only ever sees interface
     values), the recursion test (`….Type().Elem().Kind() == reflect.Map`: every map type
-    recurses, not only `map[string]any`), and all six conflict checks.  (`nilResultGuard` is
-    deliberately not here: see `concat_*_anys_partial`.) -/
+    recurses, not only `map[string]any`), all six conflict checks, and the stable final sort
+    of `concatToolCalls` (`sort.SliceStable`).  (`nilResultGuard` is deliberately not here: see
+    `concat_*_anys_partial`.) -/
 theorem facts_match :
     FactsC14.concatFuncs = Expected.C14.concatFuncs ∧
     FactsC14.registered = Expected.C14.registered ∧
@@ -45,7 +48,8 @@ theorem facts_match :
     FactsC14.guardKindFirst = Expected.C14.guardKindFirst ∧
     FactsC14.recurseByKind = Expected.C14.recurseByKind ∧
     FactsC14.roleCheck = true ∧ FactsC14.nameCheck = true ∧ FactsC14.tcidCheck = true ∧
-    FactsC14.tcIdCheck = true ∧ FactsC14.tcTypeCheck = true ∧ FactsC14.tcNameCheck = true := by
+    FactsC14.tcIdCheck = true ∧ FactsC14.tcTypeCheck = true ∧ FactsC14.tcNameCheck = true ∧
+    FactsC14.tcSortStable = Expected.C14.tcSortStable := by
   decide
 
 theorem srcCfg_eq_expected : srcCfg.table = Expected.C14.cfg.table ∧ srcCfg.nilAbsent = true ∧ srcCfg.Std := by
@@ -224,6 +228,55 @@ theorem toolcalls_by_index (n : Nat) (ms : List Msg) (m : Msg) (h : concatMsgs s
       (∀ p ∈ gs, p.2.args = joinS ((cs.filter (fun c => c.index = some p.1)).map (·.args))) :=
   concatTC_spec srcCfg _ _ (concatMsgs_ok_fields srcCfg n ms m h).2.2.2.2.2.1
 
+/-! ## the final sort of `concatToolCalls`: messages with many tool calls
+
+  `toolcalls_by_index` is about the specification-level `concatTC`, which keeps the groups
+  ascending while it builds them.  The Go function appends the calls without an index in
+  arrival order, then one merged call per index in the iteration order of a Go map (random),
+  and sorts at the end with a comparator under which all calls without an index are equal.
+  `concatTCGo` is that shape (`ord` = the map's iteration order).  Nothing below bounds the
+  number of calls: the harness family `heavy` (2 … 130 calls per message) runs against it. -/
+
+/-- **deterministic function of the chunk sequence (tool calls), and the tie between the
+    code-level and the specification-level function.**  Whatever order the Go map of index
+    groups is iterated in (`ord`: any permutation), `concatToolCalls` as written — gather,
+    merge per index, stable sort — returns what `concatTC` returns, for every number of
+    calls.  Rests on the fact `tcSortStable` (discharged from `srcCfg` by `decide`). -/
+theorem toolcalls_any_map_order (ord : List (Int × TC) → List (Int × TC)) (hord : ∀ l, (ord l).Perm l)
+    (cs : List TC) :
+    concatTCGo srcCfg ord cs = concatTC srcCfg cs :=
+  concatTCGo_eq srcCfg (by decide) ord hord cs
+
+/-- two iteration orders of the map give the same result -/
+theorem toolcalls_map_order_irrelevant (ord ord' : List (Int × TC) → List (Int × TC))
+    (hord : ∀ l, (ord l).Perm l) (hord' : ∀ l, (ord' l).Perm l) (cs : List TC) :
+    concatTCGo srcCfg ord cs = concatTCGo srcCfg ord' cs := by
+  rw [toolcalls_any_map_order ord hord, toolcalls_any_map_order ord' hord']
+
+/-- **arrival order of the calls without an index, any number of calls.**  The sort the
+    source uses (`finalSort srcCfg`, i.e. `sort.SliceStable`) returns, on every list `merged`,
+    a permutation of it that is sorted by the comparator and in which the calls without an
+    index stand in the order they had in `merged` (= arrival order). -/
+theorem toolcalls_final_sort_stable (merged : List TC) :
+    (finalSort srcCfg merged).Perm merged ∧
+    (finalSort srcCfg merged).Pairwise (fun a b => tcLess b a = false) ∧
+    (finalSort srcCfg merged).filter (fun c => c.index.isNone) = merged.filter (fun c => c.index.isNone) := by
+  have h : finalSort srcCfg merged = sortStable merged := by
+    have hs : srcCfg.tcSortStable = true := by decide
+    simp [finalSort, hs]
+  rw [h]
+  exact ⟨sortStable_perm merged, sortStable_sorted merged, sortStable_filter_none merged⟩
+
+/-- the re-chunking law for the code-level function (an equality), every map order on
+    either side -/
+theorem concat_rechunk_toolcalls_go (ord : List (Int × TC) → List (Int × TC)) (hord : ∀ l, (ord l).Perm l)
+    (xs ys : List TC) :
+    (concatTCGo srcCfg ord xs >>= fun r => concatTCGo srcCfg ord (r ++ ys)) = concatTCGo srcCfg ord (xs ++ ys) := by
+  have h : (fun r => concatTCGo srcCfg ord (r ++ ys)) = (fun r => concatTC srcCfg (r ++ ys)) := by
+    funext r; exact toolcalls_any_map_order ord hord _
+  rw [h, toolcalls_any_map_order ord hord, toolcalls_any_map_order ord hord]
+  exact concatTC_rechunk srcCfg xs ys
+
 /-! ## non-vacuity -/
 
 private def tc (i : Option Int) (id name args : String) : TC :=
@@ -253,6 +306,48 @@ example : isFail (concatMsgPtrs Expected.C14.cfg 2
 
 /-- an ordinary error: a nil chunk -/
 example : isFail (concatMsgPtrs Expected.C14.cfg 2 [some (msg "x" [] []), none]) = true := by decide
+
+/-! ## the negation for the other value of the stable-sort fact -/
+
+private def ids (r : Except Err (List TC)) : List String :=
+  match r with
+  | .ok l => l.map (·.id)
+  | .error _ => ["error"]
+
+/-- three complete calls without an index among the first fragments of ten indexed calls
+    opened as 1,0,3,2,…: thirteen calls in the result -/
+private def thirteen : List TC :=
+  [tc none "a" "" "", tc (some 1) "g1" "" "", tc (some 0) "g0" "" "", tc none "b" "" "", tc (some 3) "g3" "" "",
+   tc (some 2) "g2" "" "", tc none "c" "" "", tc (some 5) "g5" "" "", tc (some 4) "g4" "" "", tc (some 7) "g7" "" "",
+   tc (some 6) "g6" "" "", tc (some 9) "g9" "" "", tc (some 8) "g8" "" ""]
+
+/-- If the final sort were `sort.Slice` (insertion sort up to 12 elements, no stability
+    above; the model's representative of an unstable sort is `sortBySwaps`): with twelve calls
+    everything is as specified, with thirteen the calls without an index leave their arrival
+    order (`b c a`), and re-chunking invariance is false as well (fourteen calls: the first
+    thirteen first and then the rest gives `c a b …`, all at once `b c a …`) — while the stable
+    sort gives `a b c …` in all three situations and for the reversed map order. -/
+theorem unstable_final_sort_loses_arrival_order :
+    let u : Cfg := { Expected.C14.cfg with tcSortStable := false }
+    let more := thirteen ++ [tc (some 10) "g10" "" ""]
+    ids (concatTCGo u List.reverse (thirteen.take 12)) = ["a", "b", "c", "g0", "g1", "g2", "g3", "g4", "g5", "g6", "g7", "g9"] ∧
+    ids (concatTCGo u List.reverse thirteen) = ["b", "c", "a", "g0", "g1", "g2", "g3", "g4", "g5", "g6", "g7", "g8", "g9"] ∧
+    ids (concatTCGo u List.reverse thirteen >>= fun r => concatTCGo u List.reverse (r ++ [tc (some 10) "g10" "" ""])) =
+      ["c", "a", "b", "g0", "g1", "g2", "g3", "g4", "g5", "g6", "g7", "g8", "g9", "g10"] ∧
+    ids (concatTCGo u List.reverse more) = ["b", "c", "a", "g0", "g1", "g2", "g3", "g4", "g5", "g6", "g7", "g8", "g9", "g10"] ∧
+    ids (concatTCGo Expected.C14.cfg List.reverse thirteen) = ["a", "b", "c", "g0", "g1", "g2", "g3", "g4", "g5", "g6", "g7", "g8", "g9"] ∧
+    ids (concatTCGo Expected.C14.cfg id more) = ["a", "b", "c", "g0", "g1", "g2", "g3", "g4", "g5", "g6", "g7", "g8", "g9", "g10"] := by
+  decide
+
+/-- what `sort.Slice` promises — a permutation that is sorted by the comparator — does not
+    determine the result as soon as two calls have no index: both lists below are sorted
+    permutations of the same `merged`. -/
+theorem sorted_permutation_is_not_unique :
+    let merged := [tc none "a" "" "", tc none "b" "" "", tc (some 0) "g" "" ""]
+    let other := [tc none "b" "" "", tc none "a" "" "", tc (some 0) "g" "" ""]
+    other.Perm merged ∧ other.Pairwise (fun x y => tcLess y x = false) ∧
+    merged.Pairwise (fun x y => tcLess y x = false) ∧ other ≠ merged ∧ sortStable merged = merged := by
+  decide
 
 /-! ## the negation for the other value of the nil-guard fact (the defect of the unfixed tree) -/
 
